@@ -31,6 +31,7 @@
 -/
 import DfolsVerif.Proofs.Dykstra
 import DfolsVerif.Proofs.ProjTrace
+import DfolsVerif.Gen.DykstraFns
 
 namespace Dfols
 namespace C09
@@ -38,6 +39,15 @@ namespace C09
 open Dykstra ProjTrace
 
 /-! ### kernel level -/
+
+/-- layer G (translated code): the body of `util.dykstra`'s inner loop, as translated from /repo's AST on this
+    run, is the kernel's `sub1` (`rfl`), and the code around it is the loop `Kernels/Dykstra.lean` mirrors -/
+theorem gen_dykstra {V S : Type} (o : Ops V S) (P : V → V) (x y : V) :
+    Gen.dykstraBody o P x y = sub1 o P x y ∧
+    Gen.dykstraSkeleton = ["x = x0.copy()", "p = len(P)", "y = np.zeros((p, x0.shape[0]))", "n = 0", "cI = float('inf')",
+      "while n < max_iter and cI >= tol", "  cI = 0", "  for i in range(0, p): <body>", "  n += 1", "return x",
+      "signature P, x0, max_iter=100, tol=1e-10"] :=
+  ⟨rfl, by decide +kernel⟩
 
 /-- **feasibility up to Dykstra's tolerance, `p` = user sets + box.**  `Us` are the user's
     projectors (`U_i v ∈ C_i`), `Pb` the box projector (`Pb v ∈ B`) appended last by `solve`. -/
